@@ -322,8 +322,35 @@ func vcOne(tmp string, id string, sc vcScenario, k int) (string, int, []string) 
 	e2 := &vsEnv{root: img, stageDir: filepath.Join(img, "stage"), finalDir: filepath.Join(img, "final"), logDir: filepath.Join(img, "log")}
 	os.MkdirAll(e2.stageDir, 0o755)
 	os.MkdirAll(e2.finalDir, 0o755)
+	// a retransmission of a version that is already in the receive log was on the stage when the process died
+	dupInFlight := false
+	{
+		var logText strings.Builder
+		filepath.Walk(e2.logDir, func(p string, info os.FileInfo, err error) error {
+			if err == nil && !info.IsDir() {
+				b, _ := os.ReadFile(p)
+				logText.Write(b)
+			}
+			return nil
+		})
+		filepath.Walk(e2.stageDir, func(p string, info os.FileInfo, err error) error {
+			if err == nil && !info.IsDir() && filepath.Ext(p) == compExt {
+				if c, err := readLocalCompanion(strings.TrimSuffix(p, compExt), ""); err == nil && c != nil && c.Hash != "" &&
+					strings.Contains(logText.String(), ":"+c.Hash+":") {
+					dupInFlight = true
+				}
+			}
+			return nil
+		})
+	}
+	aged := k%3 == 0 || (dupInFlight && k%2 == 0)
+	if k%6 == 0 || (dupInFlight && k%2 == 0) {
+		// ... and in every sixth (and in half of those with a retransmission in flight) the process died two
+		// days ago: what it had logged dates from then too
+		vsAgeLogDir(e2.logDir, 48*time.Hour)
+	}
 	e2.logger = log.NewFileIO(e2.logDir, nil, nil, false)
-	if k%3 == 0 {
+	if aged {
 		// in every third crash image the unfinished transfers had been stalled for a while when the
 		// process died: their partials and companions date from an earlier day, at a LATER time of day
 		// than the restart (the range of log days read back at start-up begins there)
@@ -341,9 +368,10 @@ func vcOne(tmp string, id string, sc vcScenario, k int) (string, int, []string) 
 	var w strings.Builder
 	now := time.Now().Unix()
 	e2.st = New("src", e2.stageDir, e2.finalDir, e2.logger, nil, nil)
+	oldestCmp := vsOldestCmp(e2.stageDir)
 	e2.st.Recover()
 	e2.settle()
-	snapRS := e2.snapshot()
+	snapRS := fmt.Sprintf("%d %s", oldestCmp, e2.snapshot())
 	resume := vcResumeOps(e2, sc)
 	fmt.Fprintf(&w, "S %d %d IM %s RS", now, 2+len(resume), image)
 	var outs strings.Builder
